@@ -308,11 +308,39 @@ func recipeField(v ssa.Value, field string) bool {
 	}
 	switch b := ref.Root.(type) {
 	case *ssa.Alloc:
-		return paramCopiedInto(b) == 0
+		return paramCopiedInto(b) == 0 || isCopyOfRecvCopy(b)
 	case *ssa.Parameter:
 		return paramIndex(b) == 0
 	}
 	return false
+}
+
+// isCopyOfRecvCopy: a local struct whose only store is a whole copy of the
+// receiver copy and whose fields are never stored (made when a helper taking the
+// recipe by value is expanded in place): reading it is reading the recipe.
+func isCopyOfRecvCopy(al *ssa.Alloc) bool {
+	n, ok := 0, false
+	for _, ref := range core.Referrers(al) {
+		switch x := ref.(type) {
+		case *ssa.Store:
+			if x.Addr != ssa.Value(al) {
+				return false
+			}
+			n++
+			if ld, isLd := x.Val.(*ssa.UnOp); isLd {
+				if src, isAl := ld.X.(*ssa.Alloc); isAl && paramCopiedInto(src) == 0 {
+					ok = true
+				}
+			}
+		case *ssa.FieldAddr:
+			for _, rr := range core.Referrers(x) {
+				if st, isSt := rr.(*ssa.Store); isSt && st.Addr == ssa.Value(x) {
+					return false
+				}
+			}
+		}
+	}
+	return ok && n == 1
 }
 
 func isLog2Of(v ssa.Value, pred func(ssa.Value) bool) bool {
